@@ -36,6 +36,8 @@ package charset
 // ASCII text characters (BEL..CR, ESC, space..~), from the statement of C11
 //@ spec isAsciiText(b) = (7 <= b && b <= 13) || b == 27 || (32 <= b && b <= 126)
 //@ spec isC1(b) = 128 <= b && b <= 159
+// the property quantifies over byte strings without WHATWG binary data bytes
+//@ spec noBin(s) = forall i :: 0 <= i && i < len(s) ==> !(s[i] <= 8 || s[i] == 11 || (14 <= s[i] && s[i] <= 26) || (28 <= s[i] && s[i] <= 31))
 
 //@ func charset.ascii
 //@   ensures [C11_ascii_sound] result ==> (forall i :: 0 <= i && i < len(content) ==> content[i] < 128)
@@ -53,12 +55,12 @@ package charset
 //@   assume [U1] forall n :: 0 <= n && n <= len(content) && (forall i :: 0 <= i && i < n ==> content[i] < 128) ==> validUTF8(content[:n])
 //@   assume [U2] len(content) > 0 && validUTF8(content) ==> (wellFormedAt(content, len(content)-1) && len(content)-1 + u8size(content[len(content)-1]) == len(content)) || (wellFormedAt(content, len(content)-2) && len(content)-2 + u8size(content[len(content)-2]) == len(content)) || (wellFormedAt(content, len(content)-3) && len(content)-3 + u8size(content[len(content)-3]) == len(content)) || (wellFormedAt(content, len(content)-4) && len(content)-4 + u8size(content[len(content)-4]) == len(content))
 //@   ensures [C11_E1] hasBOM(content) ==> len(result) != 0 && result != "windows-1252" && result != "iso-8859-1"
-//@   ensures [C11_E2] !hasBOM(content) && result == "utf-8" ==> truncValid(content)
-//@   ensures [C11_E3_ascii] !hasBOM(content) && len(content) > 0 && (forall i :: 0 <= i && i < len(content) ==> isAsciiText(content[i])) ==> result == "utf-8"
-//@   ensures [C11_E3_whole] !hasBOM(content) && len(content) > 0 && validUTF8(content) && (exists i :: 0 <= i && i < len(content) && content[i] >= 128) ==> result == "utf-8"
-//@   ensures [C11_E3_cut1] !hasBOM(content) && truncAt(content, 1) && (exists i :: 0 <= i && i < len(content) - 1 && content[i] >= 128) ==> result == "utf-8"
-//@   ensures [C11_E3_cut2] !hasBOM(content) && truncAt(content, 2) && (exists i :: 0 <= i && i < len(content) - 2 && content[i] >= 128) ==> result == "utf-8"
-//@   ensures [C11_E3_cut3] !hasBOM(content) && truncAt(content, 3) && (exists i :: 0 <= i && i < len(content) - 3 && content[i] >= 128) ==> result == "utf-8"
+//@   ensures [C11_E2] noBin(content) && !hasBOM(content) && result == "utf-8" ==> truncValid(content)
+//@   ensures [C11_E3_ascii] noBin(content) && !hasBOM(content) && len(content) > 0 && (forall i :: 0 <= i && i < len(content) ==> isAsciiText(content[i])) ==> result == "utf-8"
+//@   ensures [C11_E3_whole] noBin(content) && !hasBOM(content) && len(content) > 0 && validUTF8(content) && (exists i :: 0 <= i && i < len(content) && content[i] >= 128) ==> result == "utf-8"
+//@   ensures [C11_E3_cut1] noBin(content) && !hasBOM(content) && truncAt(content, 1) && (exists i :: 0 <= i && i < len(content) - 1 && content[i] >= 128) ==> result == "utf-8"
+//@   ensures [C11_E3_cut2] noBin(content) && !hasBOM(content) && truncAt(content, 2) && (exists i :: 0 <= i && i < len(content) - 2 && content[i] >= 128) ==> result == "utf-8"
+//@   ensures [C11_E3_cut3] noBin(content) && !hasBOM(content) && truncAt(content, 3) && (exists i :: 0 <= i && i < len(content) - 3 && content[i] >= 128) ==> result == "utf-8"
 //@   ensures [C11_E4_1252] !hasBOM(content) && result == "windows-1252" ==> (exists i :: 0 <= i && i < len(content) && isC1(content[i]))
 //@   ensures [C11_E4_8859] !hasBOM(content) && result == "iso-8859-1" ==> (forall i :: 0 <= i && i < len(content) ==> !isC1(content[i]))
 //@   loop 1 invariant -1 <= i && i < len(content) && sameSlice(content, old(content))
